@@ -62,6 +62,11 @@ Range(start, end, step) == IF step = 0 THEN [r |-> "err", s |-> <<>>]
 \* ---- `odd` / `even` / `divisible_by` on integers (negative ones included): mathematical parity and divisibility
 Odd(n) == n % 2 = 1
 Divisible(n, d) == n % (IF d < 0 THEN -d ELSE d) = 0
+\* the same at the ends of the integer ranges: x = (-1)^neg (2^k - m1) with k >= 1; divisors +-1, +-2
+Extremes == << [k |-> 127, m1 |-> 0, neg |-> TRUE], [k |-> 127, m1 |-> 1, neg |-> FALSE], [k |-> 127, m1 |-> 1, neg |-> TRUE],
+               [k |-> 63, m1 |-> 0, neg |-> TRUE], [k |-> 63, m1 |-> 1, neg |-> FALSE], [k |-> 64, m1 |-> 1, neg |-> FALSE] >>
+OddX(x) == x.m1 = 1
+DivisibleX(x, d) == d \in {-1, 1} \/ ~OddX(x)
 \* ---- type tests partition values
 TypeTests(kind) == [defined |-> kind # "undef", undefined |-> kind = "undef", string |-> kind = "str", number |-> kind \in Num,
                     integer |-> kind = "int", float |-> kind = "float", map |-> kind = "map", array |-> kind = "arr", bool |-> kind = "bool",
